@@ -123,4 +123,37 @@ theorem ordinary_name_makes_an_expression {env : Env} (T x : String) (s : PState
     (Nat.le_of_ble_eq_true rfl)
   exact ⟨s', hr, hs'⟩
 
+open PycModel.TypeName in
+/-- **`( T ) ( x )` with `T` a typedef name is a cast** of the parenthesised `x` to the type `T` -/
+theorem typedef_name_makes_a_cast {env : Env} (T x : String) (s : PState) (rest : List Tk)
+    (hs : SeesT env s ([("LPAREN", "("), ("TYPEID", T), ("RPAREN", ")"), ("LPAREN", "("), ("ID", x), ("RPAREN", ")")] ++
+      ("SEMI", ";") :: rest)) :
+    ∃ s', run 100 .expression s =
+        .ok (mk .Cast (tc s.idx) [
+          mk .Typename (tc (s.idx + 1)) [.none, .list [], .none,
+            mk .TypeDecl none [.none, .list [], .none, mk .IdentifierType (tc (s.idx + 1)) [.list [.str T]]]],
+          mk .ID (tc (s.idx + 4)) [.str x]]) s' ∧
+      SeesT env s' (("SEMI", ";") :: rest) := by
+  let tn : TN := { specs := [("TYPEID", T)], stars := [] }
+  let e : X := .cast tn (.paren (.id x))
+  have hwt : WFTN tn := ⟨by simp [tn, SqToks], rfl, by intro q h; cases h⟩
+  have hwf : WFX 0 e := .cast _ _ _ (by omega) hwt (.paren _ _ (.id _ _))
+  have hstop : StopX ("SEMI", ";").1 := ⟨⟨⟨⟨by decide, by decide⟩, by decide⟩, by decide⟩, by decide⟩
+  obtain ⟨s', hr, hs', _⟩ := parse_full e hwf s ("SEMI", ";") rest hstop hs 100 (Nat.le_of_ble_eq_true rfl)
+  exact ⟨s', hr, hs'⟩
+
+/-- **the same spelling with `T` an ordinary identifier is a call** of `T` with the argument `x` -/
+theorem ordinary_name_makes_a_call {env : Env} (T x : String) (s : PState) (rest : List Tk)
+    (hs : SeesT env s ([("LPAREN", "("), ("ID", T), ("RPAREN", ")"), ("LPAREN", "("), ("ID", x), ("RPAREN", ")")] ++
+      ("SEMI", ";") :: rest)) :
+    ∃ s', run 100 .expression s =
+        .ok (mk .FuncCall (tc (s.idx + 1)) [mk .ID (tc (s.idx + 1)) [.str T],
+          mk .ExprList (tc (s.idx + 4)) [.list [mk .ID (tc (s.idx + 4)) [.str x]]]]) s' ∧
+      SeesT env s' (("SEMI", ";") :: rest) := by
+  let e : X := .call (.paren (.id T)) (.id x)
+  have hwf : WFX 0 e := .call _ _ _ (by omega) (.paren _ _ (.id _ _)) (.id _ _)
+  have hstop : StopX ("SEMI", ";").1 := ⟨⟨⟨⟨by decide, by decide⟩, by decide⟩, by decide⟩, by decide⟩
+  obtain ⟨s', hr, hs', _⟩ := parse_full e hwf s ("SEMI", ";") rest hstop hs 100 (Nat.le_of_ble_eq_true rfl)
+  exact ⟨s', hr, hs'⟩
+
 end PycModel.C04
